@@ -86,6 +86,7 @@ func (r *Runner) liveViews(o *model.Obs) {
 	o.LiveBySubMsg = map[string]int{}
 	o.LiveTopics = map[string]int{}
 	o.LiveSubs = map[string]int{}
+	o.SnapRows = map[string]int{}
 	q := func(sql string, f func(a, b string)) {
 		rs, err := r.W.DB.Query(sql)
 		if err != nil {
@@ -104,6 +105,7 @@ func (r *Runner) liveViews(o *model.Obs) {
 		func(a, b string) { o.LiveBySubMsg[a+"|"+b]++ })
 	q("SELECT name, '' FROM topics WHERE deleted_at IS NULL", func(a, _ string) { o.LiveTopics[a]++ })
 	q("SELECT name, '' FROM subscriptions WHERE deleted_at IS NULL", func(a, _ string) { o.LiveSubs[a]++ })
+	q("SELECT name, '' FROM snapshots", func(a, _ string) { o.SnapRows[a]++ })
 }
 
 func (r *Runner) rows() map[string]model.Row {
